@@ -60,6 +60,9 @@ for f in ("patch.diff", "demo.py", "notes.md"):
 # run the checks against the change applied to /repo itself, then undo
 meta["checks"] = {}
 if meta["confirmed"]:
+    for p in props:                       # evidence files must keep describing the unchanged tree
+        if os.path.exists(f"{V}/evidence/{p}.json"):
+            shutil.copy(f"{V}/evidence/{p}.json", f"/tmp/seedcheck_evidence_{p}.json")
     rc, out = sh(f"git -C /repo apply {src}/patch.diff")
     try:
         for p in props:
@@ -78,7 +81,10 @@ if meta["confirmed"]:
                     pass
     finally:
         sh("git -C /repo checkout -- .")
-        sh(f"rm -rf {V}/replays/" + " ".join(props))
+        for p in props:
+            sh(f"rm -rf {V}/replays/{p}")
+            if os.path.exists(f"/tmp/seedcheck_evidence_{p}.json"):
+                shutil.move(f"/tmp/seedcheck_evidence_{p}.json", f"{V}/evidence/{p}.json")
 meta["what_was_run"] = "scratch worktree: git apply; demo.py; pytest suite; revert; demo.py. Then: git -C /repo apply; ./check <prop> --tier quick; git -C /repo checkout -- ."
 json.dump(meta, open(f"{dst}/meta.json", "w"), indent=1)
 print(sid, "confirmed" if meta["confirmed"] else "NOT CONFIRMED", {k: (v["exit"], v.get("tags")) for k, v in meta["checks"].items()})
